@@ -116,12 +116,14 @@ CHECKS = {
                  "non-trivial = at least one call judged; distinct = distinct event-log hash"),
         "parts": [
             {"module": "rueidis", "scenario": "cluster", "variant": "helpers", "quick": 1200, "thorough": 120000},
-            {"module": "rueidis", "scenario": "cluster", "quick": 800, "thorough": 80000},
+            {"module": "rueidis", "scenario": "cluster", "variant": "helpers2", "quick": 1000, "thorough": 100000},
+            {"module": "rueidis", "scenario": "cluster", "quick": 600, "thorough": 60000},
         ],
         "expected_probes": ["stable-topology"],
         "components": {"real": REAL, "stubs": STUBS},
         "assumptions": [
-            "cluster client only so far; JsonMGet/JsonMSet/JsonMGetCache/MSetNX and multi-entry MSet maps are not exercised",
+            "cluster client (the single-node, standalone and sentinel clients share one code path for these helpers, which the cache scenario exercises through MGetCache only)",
+            "variant helpers2: MSet / MSetNX / JsonMSet with 1-6 entries (the library sends them in Go map order: those runs log request lengths instead of request bytes and yield identities without command text, so that the event log stays a function of the seed), JsonMGet / JsonMGetCache over preloaded documents; an existing key given to MSetNX must come back with the nil reply of its own SET NX and keep its value",
         ],
     },
     "C12": {
